@@ -42,6 +42,10 @@ type c06Handler struct {
 	DurMs   []int `json:"dur_ms"`  // handler duration per message (cyclic)
 	Publish bool  `json:"publish"` // the handler returns one output message
 	NoPub   bool  `json:"nopub"`   // added with AddNoPublisherHandler
+	// how the subscriber's own Close() behaves: "" returns once its channel is closed; "settled" first waits until
+	// every message it handed out is settled; "slow" first sleeps SubCloseMs; "forever" blocks until the scenario is over
+	SubClose   string `json:"sub_close,omitempty"`
+	SubCloseMs int    `json:"sub_close_ms,omitempty"`
 }
 
 type c06CloseCall struct {
@@ -92,10 +96,15 @@ type c06Sub struct {
 	closes   int
 	subs     int
 	emitWg   sync.WaitGroup
+
+	closeMode string
+	closeMs   int
+	handed    []*message.Message // messages the pump took
+	release   chan struct{}      // closed by the driver when the scenario is over: a blocked Close() gives up
 }
 
 func newC06Sub(h string, honour bool) *c06Sub {
-	return &c06Sub{h: h, honour: honour, done: make(chan struct{}), chClosed: make(chan struct{})}
+	return &c06Sub{h: h, honour: honour, done: make(chan struct{}), chClosed: make(chan struct{}), release: make(chan struct{})}
 }
 
 func (s *c06Sub) Subscribe(ctx context.Context, topic string) (<-chan *message.Message, error) {
@@ -138,7 +147,26 @@ func (s *c06Sub) Close() error {
 	s.closes++
 	verifhook.At("api.sub.close_called", s.h)
 	subscribed := s.ch != nil
+	handed := append([]*message.Message(nil), s.handed...)
 	s.mu.Unlock()
+	// a broker client may block in Close(): until its in-flight messages are settled, for some time, or for ever
+	switch s.closeMode {
+	case "settled":
+		for _, m := range handed {
+			select {
+			case <-m.Acked():
+			case <-m.Nacked():
+			case <-s.release:
+			}
+		}
+	case "slow":
+		select {
+		case <-time.After(time.Duration(s.closeMs) * time.Millisecond):
+		case <-s.release:
+		}
+	case "forever":
+		<-s.release
+	}
 	s.requestClose()
 	if subscribed {
 		<-s.chClosed
@@ -161,6 +189,9 @@ func (s *c06Sub) Emit(msg *message.Message, d time.Duration) bool {
 	defer t.Stop()
 	select {
 	case ch <- msg:
+		s.mu.Lock()
+		s.handed = append(s.handed, msg)
+		s.mu.Unlock()
 		verifhook.At("api.emit.taken", s.h, msg.UUID)
 		return true
 	case <-s.done:
@@ -255,6 +286,7 @@ func c06Run(rt *hookrt.Runtime, sc *c06Scenario) {
 		spec := sc.Handlers[h]
 		hname := fmt.Sprintf("h%d", h)
 		subs[h] = newC06Sub(hname, spec.Honour)
+		subs[h].closeMode, subs[h].closeMs = spec.SubClose, spec.SubCloseMs
 		pubs[h] = &c06Pub{h: hname}
 		fn := func(msg *message.Message) ([]*message.Message, error) {
 			verifhook.At("api.handler.start", hname, msg.UUID)
@@ -368,7 +400,7 @@ func c06Run(rt *hookrt.Runtime, sc *c06Scenario) {
 		mu.Lock()
 		sc.Calls = append(sc.Calls, call)
 		if call.Hung {
-			sc.Hung = append(sc.Hung, fmt.Sprintf("Close call %d did not return within CloseTimeout + 4 s", c))
+			sc.Hung = append(sc.Hung, fmt.Sprintf("Close hangs: call %d did not return within CloseTimeout (%d ms) + 4 s", c, sc.CloseTimeoutMs))
 		}
 		mu.Unlock()
 	}
@@ -399,6 +431,9 @@ func c06Run(rt *hookrt.Runtime, sc *c06Scenario) {
 		mu.Unlock()
 	}
 	verifhook.At("api.release")
+	for h := range subs {
+		close(subs[h].release)
+	}
 
 	// everything must come to rest: Run returns, handlers finish, emitters stop
 	select {
@@ -575,6 +610,31 @@ func c06Forced(honour bool) []*c06Scenario {
 				{Point: "api.close.gate", Until: p.point, UntilKeys: keys, TimeoutMs: 400},
 			}})
 	}
+	// a subscriber whose own Close() blocks (until its message is settled / longer than CloseTimeout / for ever), with and
+	// without a handler that outlives CloseTimeout: Close must return (the error) on time, so must a second and concurrent calls
+	for _, mode := range []string{"settled", "slow", "forever"} {
+		for _, stuck := range []bool{true, false} {
+			for _, closers := range []int{1, 3} {
+				hsb := hs(false)
+				hsb[0].SubClose, hsb[0].SubCloseMs = mode, 250
+				if closers == 3 {
+					hsb[1].SubClose, hsb[1].SubCloseMs = mode, 250
+				}
+				keys := []string{target}
+				rules := []c06Rule{{Point: "api.close.gate", Until: "api.handler.start", UntilKeys: keys, TimeoutMs: 400}}
+				name := "blocking-subscriber-close/" + mode
+				if stuck {
+					rules = append(rules, c06Rule{Point: "api.handler.start", Keys: keys, Until: "api.release", TimeoutMs: 9000})
+					name += "/handler-outlives"
+				} else {
+					rules = append(rules, c06Rule{Point: "api.handler.start", Keys: keys, Until: "router.close.signal", TimeoutMs: 400})
+					name += "/handler-finishes"
+				}
+				out = append(out, &c06Scenario{Name: fmt.Sprintf("%s/closers=%d/%s", name, closers, hn), Kind: "forced", Handlers: hsb,
+					CloseTimeoutMs: 60, Closers: closers, SecondClose: true, Rules: rules})
+			}
+		}
+	}
 	// D5 witness: a received message is dispatched only after the running-handlers wait of Close finished
 	for _, p := range c06Points[:2] {
 		keys := []string{target}
@@ -612,6 +672,12 @@ func c06Random(rng *rand.Rand) *c06Scenario {
 				d = 90 + rng.Intn(40)
 			}
 			spec.DurMs = append(spec.DurMs, d)
+		}
+		switch rng.Intn(8) {
+		case 0, 1:
+			spec.SubClose = "settled"
+		case 2:
+			spec.SubClose, spec.SubCloseMs = "slow", 1+rng.Intn(60)
 		}
 		sc.Handlers = append(sc.Handlers, spec)
 	}
